@@ -96,6 +96,7 @@ def add_twin(rng, spec, variants):
     main = spec['files']['main_' + v['file']]
     main['tasks'] = [tid]
     main['tw'] = rng.randrange(100)
+    spec['_twin'] = {'variant': variants.index(v), 'inner': slug, 'twin': gen.slug_of(twin, spec['module'])}
     return gen.slug_of(twin, spec['module'])
 
 
@@ -110,10 +111,26 @@ def run(ctx):
     for h in range(n):
         rng = ctx.rng('hist', h)
         spec, variants = machine.gen_family(rng, n_classes=rng.randint(2, 5), kinds=['json', 'json', 'numpy', 'memory', 'generated'])
-        twin = add_twin(rng, spec, variants) if rng.random() < 0.4 else None
+        twin = add_twin(rng, spec, variants) if rng.random() < 0.6 else None
         ctx.count('twin-family' if twin else 'plain-family')
         ops = machine.gen_ops(rng, spec, variants, rng.randint(8, 30), {'fail', 'force'})
+        tw = spec.pop('_twin', None)
+        if tw:
+            # make sure the two runs nest at least once: a fresh chain of the twin's variant, the inner task (hence the twin) forced, the
+            # twin requested — it computes the inner task lazily inside its own run
+            c_new = sum(1 for o in ops if o['op'] == 'build')
+            # (tasks are addressed by (name without namespace, position in chain.tasks): in parameter mode inputs are created before their
+            #  dependants, so the inner task comes before the twin)
+            same = tw['inner'] == tw['twin']
+            ops += [{'op': 'build', 'variant': tw['variant']},
+                    {'op': 'force', 'chain': c_new, 'task': tw['inner'], 'del': False, 'pick': 0},
+                    {'op': 'force', 'chain': c_new, 'task': tw['twin'], 'del': False, 'pick': 1 if same else 0},
+                    {'op': 'value', 'chain': c_new, 'task': tw['twin'], 'failing': [], 'pick': 1 if same else 0}]
         logs = gen_logs(rng, spec, variants)
+        if tw:
+            # the lazily computed inner task always has something to say (else a leak into the outer log would not show)
+            inner_full = variants[tw['variant']]['ns'] + '::' + tw['inner']
+            logs[inner_full] = [([f'in{rng.randrange(1000)}-{k}' for k in range(rng.randint(1, 3))], [{'rec': rng.randrange(100)}]) for _ in range(12)]
         if twin:
             logs[twin] = [([f'tw{rng.randrange(1000)}-{k}' for k in range(rng.randint(1, 3))], [{'rec': rng.randrange(100)}]) for _ in range(12)]
         b = pl.materialize(spec, root / f'h{h}' / 'src', modname=spec['module'])
